@@ -8,6 +8,28 @@ from .src import Source
 
 # (name, program text defining RESULT or raising, expected repr of RESULT / "raise <Exc>")
 PROGRAMS = [
+    ("generator-close-runs-finally-also-through-yield-from", '''
+log = []
+def inner():
+    try:
+        yield 1
+        yield 2
+    finally:
+        log.append("inner-finally")
+def outer():
+    try:
+        yield from inner()
+        yield 3
+    finally:
+        log.append("outer-finally")
+g = outer()
+first = next(g)
+log.append("suspended")
+g.close()
+h = outer()
+h.close()
+RESULT = (first, log, list(g))
+''', "(1, ['suspended', 'inner-finally', 'outer-finally'], [])"),
     ("islice-continues-a-shared-iterator", '''
 import itertools
 src = iter([1, 2, 3, 4, 5, 6, 7])
